@@ -8,3 +8,4 @@ from nl import core, symbols
 facts, info = core.extract('dev')
 parsed = [json.load(open(os.path.join(facts, f))) for f in ('nundb.json', 'nun_db.json')]
 print('functions fingerprinted:', symbols.dump_ref(parsed))
+print('types recorded:', symbols.dump_ref_adts(parsed))
